@@ -65,7 +65,8 @@ type Ether []byte
 
 func (p Ether) IsValid() error {
 	// Minimum len to contain two hardware address and EtherType (2 bytes) + 1 byte payload
-	if len(p) >= EthHeaderLen {
+	// the header is 18 or 22 bytes long when 802.1Q / 802.1ad tags are present
+	if len(p) >= EthHeaderLen && len(p) >= p.HeaderLen() {
 		return nil
 	}
 	return fmt.Errorf("ethernet frame too short len=%d: %w", len(p), ErrFrameLen)
